@@ -123,9 +123,11 @@ def check_epoch(prop: str, res: Result, repo: Repo):
             for s in n.body:
                 if isinstance(s, ast.Return) and isinstance(s.value, ast.Call) and call_name(s.value) == "timedelta" and len(s.value.keywords) == 1:
                     kw = s.value.keywords[0]
-                    got[n.test.args[0].value] = (kw.arg, ast.unparse(kw.value))
+                    recv = ast.unparse(n.test.func.value) if isinstance(n.test.func, ast.Attribute) else "?"
+                    # the number is the rest of the very string whose prefix was tested
+                    got[n.test.args[0].value] = (kw.arg, ast.unparse(kw.value).replace(" ", "").replace(recv, "<tf>"))
     for k, unit in want.items():
-        if k in got and got[k][0] == unit and got[k][1].replace(" ", "") in ("int(timeframe_[1:])",):
+        if k in got and got[k][0] == unit and got[k][1] in ("int(<tf>[1:])",):
             res.ok(rule, {"site": t2.where, "unit": f"{k} -> timedelta({unit}=int(rest))"})
         else:
             res.fail(rule, finding(prop, rule, t2, t2.node, f"timeframe prefix {k!r} must map to timedelta({unit}=int(...)); found {got.get(k)}", construct=f"timeframe_to_timedelta: {k}"))
@@ -135,7 +137,59 @@ def check_epoch(prop: str, res: Result, repo: Repo):
 # collapse_candles: per-branch bucket correctness + conservation
 
 
+def collapse_roles(cc):
+    """the local names that play the walk's roles, derived from the statements that define them (never from their spelling):
+    acc = [self.candles.pop(0)] | [first];  tf = timeframe_to_timedelta(self.timeframe);  first = acc[0] | self.candles.pop(0);
+    start = round_down_timestamp(first.timestamp, tf);  end = start + tf;  in the loop: cur = self.candles.pop(0), prev = acc[-1]"""
+    fn = cc.node
+    loops = [n for n in fn.body if isinstance(n, ast.While)]
+    if len(loops) != 1:
+        raise AnalysisError(f"{cc.where}: collapse_candles no longer has exactly one while loop (rule cannot be applied)")
+    loop = loops[0]
+    pre = fn.body[: fn.body.index(loop)]
+
+    def assigns(stmts):
+        for st in stmts:
+            for n in ast.walk(st):
+                if isinstance(n, ast.Assign) and len(n.targets) == 1 and isinstance(n.targets[0], ast.Name):
+                    yield n.targets[0].id, n.value
+
+    POP = "self.candles.pop(0)"
+    r = {}
+    pre_as = list(assigns(pre))
+    for name, v in pre_as:
+        u = ast.unparse(v)
+        if isinstance(v, ast.Call) and call_name(v) == "timeframe_to_timedelta":
+            r["tf"] = name
+        elif u == POP:
+            r["first"] = name
+    for name, v in pre_as:
+        if isinstance(v, ast.List) and len(v.elts) == 1 and (ast.unparse(v.elts[0]) == POP or ast.unparse(v.elts[0]) == r.get("first")):
+            r["acc"] = name
+    for name, v in pre_as:
+        if "acc" in r and ast.unparse(v).replace(" ", "") == f"{r['acc']}[0]":
+            r["first"] = name
+    for name, v in pre_as:
+        if isinstance(v, ast.Call) and call_name(v) == "round_down_timestamp":
+            r["start"] = name
+    for name, v in pre_as:
+        if "start" in r and "tf" in r and isinstance(v, ast.BinOp) and isinstance(v.op, ast.Add) and {ast.unparse(v.left), ast.unparse(v.right)} == {r["start"], r["tf"]}:
+            r["end"] = name
+    for name, v in assigns(loop.body):
+        u = ast.unparse(v).replace(" ", "")
+        if u == POP and "cur" not in r:
+            r["cur"] = name
+        elif "acc" in r and u == f"{r['acc']}[-1]":
+            r["prev"] = name
+    missing = [k for k in ("acc", "tf", "first", "start", "end", "cur") if k not in r]
+    if missing:
+        raise AnalysisError(f"{cc.where}: cannot identify the collapse walk's {missing} (accumulator / window / popped candle): the shape of collapse_candles changed; re-derive the rule")
+    return r, loop
+
+
 class CollapseInterp(HeapInterp):
+    acc = "candles_"
+
     def call(self, st, node):
         fn = node.func
         if isinstance(fn, ast.Attribute) and ast.unparse(fn) == "self.candles.pop":
@@ -146,7 +200,7 @@ class CollapseInterp(HeapInterp):
             arg = self.expr(node.args[0], st) if node.args else None
             st.effects.append(("merge", recv, arg, node))
             return NoneV()
-        if isinstance(fn, ast.Attribute) and fn.attr == "append" and ast.unparse(fn.value) == "candles_":
+        if isinstance(fn, ast.Attribute) and fn.attr == "append" and ast.unparse(fn.value) == self.acc:
             arg = self.expr(node.args[0], st) if node.args else None
             st.effects.append(("append", arg, node))
             return NoneV()
@@ -162,7 +216,7 @@ class CollapseInterp(HeapInterp):
         return super().repo_call(st, fi, args, kws, node)
 
     def subscript(self, st, base, idx, node):
-        if ast.unparse(node).replace(" ", "") == "candles_[-1]":
+        if ast.unparse(node).replace(" ", "") == f"{self.acc}[-1]":
             return Obj("obj", "last")
         return super().subscript(st, base, idx, node)
 
@@ -177,23 +231,21 @@ class CollapseInterp(HeapInterp):
 def check_collapse(prop: str, res: Result, repo: Repo, want=("R-INTERVAL", "R-CONSERVE", "R-FILLPATH")):
     cc = repo.method("hexital.core.candle_manager", "CandleManager", "collapse_candles")
     fn = cc.node
-    loops = [n for n in fn.body if isinstance(n, ast.While)]
-    if len(loops) != 1:
-        res.errors.append(f"{cc.where}: collapse_candles no longer has exactly one while loop (rule cannot be applied)")
-        return
-    loop = loops[0]
+    R, loop = collapse_roles(cc)
+    ACC, TFN, FIRST, START, END = R["acc"], R["tf"], R["first"], R["start"], R["end"]
     S, TF, TS = A("sym", "S"), A("sym", "TF"), at("cur", "timestamp")
     # ---- invariant before the loop: end_time - start_time == timeframe_
     pre = fn.body[: fn.body.index(loop)]
     it = CollapseInterp(repo, cc.module)
+    it.acc = ACC
     st0 = State()
     st0.env.update({"self": Obj("obj", "self")})
-    st0.env["candles_"] = Obj("list", "candles_")
+    st0.env[ACC] = Obj("list", "candles_")
     pre_paths = it.block(pre, st0)
     live = [(s, o) for s, o in pre_paths if o is None]
     if "R-INTERVAL" in want:
         for s, _ in live:
-            stt, ent, tfv = s.env.get("start_time"), s.env.get("end_time"), s.env.get("timeframe_")
+            stt, ent, tfv = s.env.get(START), s.env.get(END), s.env.get(TFN)
             if isinstance(stt, Num) and isinstance(ent, Num) and isinstance(tfv, Num) and (ent.f - stt.f).same(tfv.f):
                 res.ok("R-INTERVAL", {"site": cc.where, "loop head": "end_time == start_time + timeframe_ (established before the loop)"}, nontrivial="collapse:init")
             else:
@@ -205,8 +257,9 @@ def check_collapse(prop: str, res: Result, repo: Repo, want=("R-INTERVAL", "R-CO
                 res.fail("R-INTERVAL", finding(prop, "R-INTERVAL", cc, loop, "the initial window start is not round_down_timestamp(first candle)", construct="collapse: initial start"))
     # ---- loop body with symbolic window (S, S+TF]
     st = State()
-    st.env.update({"self": Obj("obj", "self"), "candles_": Obj("list", "candles_"), "timeframe_": Num(TF), "start_time": Num(S), "end_time": Num(S + TF), "init_candle": Obj("obj", "first")})
+    st.env.update({"self": Obj("obj", "self"), ACC: Obj("list", "candles_"), TFN: Num(TF), START: Num(S), END: Num(S + TF), FIRST: Obj("obj", "first")})
     it2 = CollapseInterp(repo, cc.module)
+    it2.acc = ACC
     outs = it2.block(loop.body, st)
     n_branches = 0
     for s2, out in outs:
@@ -257,7 +310,7 @@ def check_collapse(prop: str, res: Result, repo: Repo, want=("R-INTERVAL", "R-CO
                 res.fail("R-INTERVAL", finding(prop, "R-INTERVAL", cc, loop, f"an appended candle keeps its raw timestamp (branch: {descr}): buckets must be labelled with their end", construct=f"append without label: {descr}"[:190]))
                 continue
             label = label_v.f
-        new_S, new_E = s2.env.get("start_time"), s2.env.get("end_time")
+        new_S, new_E = s2.env.get(START), s2.env.get(END)
         ok_inv = isinstance(new_S, Num) and isinstance(new_E, Num) and (new_E.f - new_S.f).same(TF)
         # obligations: label - TF < ts <= label  and label on the grid, using rd axioms
         extra = [TF - ONE]
@@ -293,7 +346,7 @@ def check_collapse(prop: str, res: Result, repo: Repo, want=("R-INTERVAL", "R-CO
     if n_branches < 4:
         res.errors.append(f"{cc.where}: only {n_branches} placing branches found in the collapse walk (expected the merge/append/advance/jump arms)")
     if "R-INVARIANT" in want:
-        _collapse_invariant(prop, res, repo, cc, loop, live, outs, S, TF, TS)
+        _collapse_invariant(prop, res, repo, cc, loop, live, outs, S, TF, TS, R)
     if "R-CONSERVE" in want:
         # the walk consumes the whole list: self.candles is touched only by pop(0) (first candle + loop) and the final extend
         cparams = [p for p in cc.params if p != "self"]
@@ -307,9 +360,10 @@ def check_collapse(prop: str, res: Result, repo: Repo, want=("R-INTERVAL", "R-CO
                 touched.append((n, "self.candles[" + ast.unparse(n.slice) + "]"))
             elif isinstance(n, (ast.Assign, ast.AugAssign)) and any(ast.unparse(t) == "self.candles" for t in (n.targets if isinstance(n, ast.Assign) else [n.target])):
                 touched.append((n, "self.candles = ..."))
-        allowed = {"pop(0)", "extend(candles_)"}
+        EXT = f"extend({ACC})"
+        allowed = {"pop(0)", EXT}
         bad = [(n, t) for n, t in touched if t not in allowed]
-        if not bad and sum(1 for _, t in touched if t == "pop(0)") == 2 and sum(1 for _, t in touched if t == "extend(candles_)") == 1:
+        if not bad and sum(1 for _, t in touched if t == "pop(0)") == 2 and sum(1 for _, t in touched if t == EXT) == 1:
             res.ok("R-CONSERVE", {"site": cc.where, "why": "self.candles is consumed candle by candle (pop(0) for the first candle and in the loop `while self.candles`) and refilled once with the rebuilt list"}, nontrivial="collapse:walkall")
         else:
             for n, t in bad[:3]:
@@ -324,7 +378,7 @@ def check_collapse(prop: str, res: Result, repo: Repo, want=("R-INTERVAL", "R-CO
         for p in stmt_paths(post):
             calls = [call_target(c) for c in path_calls(p)]
             if "R-CONSERVE" in want:
-                if calls and calls[-1] == "self.candles.extend" and ast.unparse(path_calls(p)[-1].args[0]) == "candles_":
+                if calls and calls[-1] == "self.candles.extend" and ast.unparse(path_calls(p)[-1].args[0]) == ACC:
                     res.ok("R-CONSERVE", {"site": cc.where, "exit": "self.candles.extend(candles_)"})
                 else:
                     res.fail("R-CONSERVE", finding(prop, "R-CONSERVE", cc, fn, "a normal exit of collapse_candles does not put the rebuilt buckets back (self.candles.extend(candles_))", construct="collapse exit: " + " -> ".join(calls)))
@@ -335,14 +389,14 @@ def check_collapse(prop: str, res: Result, repo: Repo, want=("R-INTERVAL", "R-CO
                 for item in tests:
                     if item[2]:
                         c = [x for x in path_calls(p) if call_target(x) == "self.fill_missing_candles"]
-                        stores = [s for s in p if isinstance(s, ast.Assign) and ast.unparse(s.targets[0]) == "candles_" and c and s.value is c[0]]
-                        if c and stores and [ast.unparse(a) for a in c[0].args] == ["candles_", "timeframe_"]:
+                        stores = [s for s in p if isinstance(s, ast.Assign) and ast.unparse(s.targets[0]) == ACC and c and s.value is c[0]]
+                        if c and stores and [ast.unparse(a) for a in c[0].args] == [ACC, TFN]:
                             res.ok("R-FILLPATH", {"site": cc.where, "when fill is on": "candles_ = self.fill_missing_candles(candles_, timeframe_) before extend"}, nontrivial="fillpath")
                         else:
                             res.fail("R-FILLPATH", finding(prop, "R-FILLPATH", cc, item[1], "with timeframe_fill set the rebuilt list must pass through fill_missing_candles(candles_, timeframe_) before it is stored"))
 
 
-def _collapse_invariant(prop, res, repo, cc, loop, pre_live, outs, S, TF, TS):
+def _collapse_invariant(prop, res, repo, cc, loop, pre_live, outs, S, TF, TS, R):
     """Inductive invariant of the walk, by predicate abstraction with the single predicate
         I:  label(last bucket) in {start_time, end_time}   (and end_time == start_time + tf, start on the grid)
     (1) I holds when the loop is entered; (2) every placing branch re-establishes I; under I and the
@@ -354,8 +408,8 @@ def _collapse_invariant(prop, res, repo, cc, loop, pre_live, outs, S, TF, TS):
     E = S + TF
     # (1) entry: the first candle is labelled start (if it sits on a boundary) or end
     for s, _ in pre_live:
-        stt, ent = s.env.get("start_time"), s.env.get("end_time")
-        first = s.env.get("init_candle")
+        stt, ent = s.env.get(R["start"]), s.env.get(R["end"])
+        first = s.env.get(R["first"])
         lab = s.heap.get((first, "timestamp")) if isinstance(first, Obj) else None
         facts = list(s.facts)
         on = [c for c in facts if isinstance(c, tuple) and c[0] == "ontf"]
@@ -395,7 +449,7 @@ def _collapse_invariant(prop, res, repo, cc, loop, pre_live, outs, S, TF, TS):
         facts = tuple(c for c in s2.facts if not (isinstance(c, tuple) and c[0] in ("present-ts",)))
         descr = "; ".join(show_cond(c) for c in facts)[:200]
         merges = [e for e in s2.effects if e[0] == "merge"]
-        new_S, new_E = s2.env.get("start_time"), s2.env.get("end_time")
+        new_S, new_E = s2.env.get(R["start"]), s2.env.get(R["end"])
         label_v = s2.heap.get((Obj("obj", "cur"), "timestamp"))
         if merges:
             relabel = s2.heap.get((Obj("obj", "last"), "timestamp"))
@@ -567,7 +621,7 @@ def check_fill(prop: str, res: Result, repo: Repo):
         res.ok(rule, {"site": fm.where, "cursor": "+= 1 per iteration (an inserted candle becomes the next 'previous')"})
     else:
         res.fail(rule, finding(prop, rule, fm, fn, "the fill cursor must advance by exactly one per iteration", construct="fill cursor increment"))
-    ends = [n for n in ast.walk(fn) if isinstance(n, ast.Compare) and ast.unparse(n.left) == cursor and f"len({lst})" in ast.unparse(n)]
+    ends = [n for n in ast.walk(fn) if isinstance(n, ast.Compare) and len(n.ops) == 1 and {ast.unparse(n.left), ast.unparse(n.comparators[0])} == {cursor, f"len({lst})"}]
     if ends:
         res.ok(rule, {"site": fm.where, "end": norm_construct(ends[0])})
     else:
